@@ -11,6 +11,8 @@ timeout needs a digit"); anything else has to raise ValueError -- never be defau
 The reachability twins (post: False) are derived mechanically by lib/chx.make_twin.
 """
 
+import os
+
 from halmos.config import (
     ParseArrayLengths,
     ParseCSVInt,
@@ -21,6 +23,9 @@ from halmos.config import (
 )
 
 LAST_DETAIL = None
+THOROUGH = os.environ.get("C18_TIER") == "thorough"
+R_ERR1 = 300 if THOROUGH else 40  # range of the single error code
+R_ARR = 4 if THOROUGH else 3  # range of each length in the 2-name array-length map
 
 
 def _rt(action, v):
@@ -60,15 +65,7 @@ def rt_csvint_3(a: int, b: int, c: int) -> bool:
 
 def rt_errcodes_1(a: int) -> bool:
     """
-    pre: 0 <= a < 40
-    post: __return__
-    """
-    return _rt(ParseErrorCodes, {a})
-
-
-def rt_errcodes_1w(a: int) -> bool:
-    """
-    pre: 0 <= a < 300
+    pre: 0 <= a < R_ERR1
     post: __return__
     """
     return _rt(ParseErrorCodes, {a})
@@ -101,7 +98,7 @@ def rt_arrlen_1(a: int) -> bool:
 
 def rt_arrlen_2(n: int, a: int, b: int) -> bool:
     """
-    pre: 0 <= n <= 2 and 0 <= a < 4 and 0 <= b < 4
+    pre: 0 <= n <= 2 and 0 <= a < R_ARR and 0 <= b < R_ARR
     post: __return__
     """
     items = [("p0", [a, b + 9]), ("data.y", [b])][:n]
@@ -147,7 +144,8 @@ def _has_digit(s):
     return any(ch in "0123456789" for ch in s)
 
 
-A_TIME = ("0", "5", "m", "s", "h", ".", "-", " ", "x", ",", "e")
+A_TIME = ("0", "5", "m", "s", ".", "-", " ", "x", "h", ",", "e")
+N_TIME2 = len(A_TIME) if THOROUGH else 8  # the 2-symbol harness uses the first 8 symbols in the quick tier
 
 
 def _rej_timeout(s):
@@ -158,7 +156,7 @@ def _rej_timeout(s):
 
 def rej_timeout_2(n: int, i0: int, i1: int) -> bool:
     """
-    pre: 0 <= n <= 2 and 0 <= i0 < len(A_TIME) and 0 <= i1 < len(A_TIME)
+    pre: 0 <= n <= 2 and 0 <= i0 < N_TIME2 and 0 <= i1 < N_TIME2
     post: __return__
     """
     return _rej_timeout((A_TIME[i0] + A_TIME[i1])[:n])
